@@ -43,6 +43,9 @@ pub struct Sc {
 	/// debounce in ticks (0 or 1)
 	pub debounce: u64,
 	pub horizon: u64,
+	/// the n-th `wait()` on the command fails once (a transient error while it is alive)
+	#[serde(default)]
+	pub wait_fault: Option<usize>,
 }
 
 impl Sc {
@@ -186,7 +189,7 @@ pub fn run(sc: &Sc, bounds: Bounds, prefix: &[Point]) -> Result<Exec<Obs>, Strin
 		reaction: if sc.ignores { Reaction::Ignore } else { Reaction::ExitNow },
 		inert_signals: if sc.signals() { vec![10, 12, 15, 2] } else { vec![10, 12] },
 		spawn_fail_at: None,
-		op_fault: None,
+		op_fault: sc.wait_fault.map(|n| (simchild::FaultOp::Wait, n)),
 	});
 	fakewatcher::install();
 	let sc2 = sc.clone();
@@ -532,7 +535,7 @@ pub fn scenarios(tier: Tier) -> Vec<(Sc, Vec<Bounds>)> {
 					if (int || st == 0) && !(restart || matches!(mode, Mode::Signal)) {
 						continue;
 					}
-					let sc = Sc { mode, changes, ignores, postpone, stop_signal_int: int, stop_timeout: st, delay_run: delay, debounce: deb, horizon: st + deb + 2 };
+					let sc = Sc { mode, changes, ignores, postpone, stop_signal_int: int, stop_timeout: st, delay_run: delay, debounce: deb, horizon: st + deb + 2, wait_fault: None };
 					let base_variant = !postpone && !int && st == 2 && !delay && deb == 0;
 					let passes: Vec<Bounds> = match (tier, changes) {
 						(Tier::Quick, 1) => [both(0), both(1)].concat(),
@@ -551,7 +554,16 @@ pub fn scenarios(tier: Tier) -> Vec<(Sc, Vec<Bounds>)> {
 						(Tier::Thorough, _) if base_variant => [both(0), both(1)].concat(),
 						(Tier::Thorough, _) => both(0),
 					};
-					out.push((sc, passes));
+					out.push((sc.clone(), passes));
+					// a transient wait() error while the command runs must not change what the
+					// mode does with a change (default schedule)
+					if base_variant && changes <= 2 && !shorthand {
+						for n in 1..=6usize {
+							let mut f = sc.clone();
+							f.wait_fault = Some(n);
+							out.push((f, both(0)));
+						}
+					}
 				}
 			}
 		}
